@@ -1,0 +1,246 @@
+//go:build verif
+
+// Contracts for the verification machinery in /verif (comment-only; no declarations).
+
+package rcmgr
+
+// ---------------------------------------------------------------------------
+// C03 level 1: resources (exact arithmetic for memory)
+
+//@ pred nonneg(rc *resources) = rc.memory >= 0 && rc.nconnsIn >= 0 && rc.nconnsOut >= 0 &&
+//@     rc.nstreamsIn >= 0 && rc.nstreamsOut >= 0 && rc.nfd >= 0
+//@ pred sameCounts(rc *resources) = rc.nconnsIn == old(rc.nconnsIn) && rc.nconnsOut == old(rc.nconnsOut) &&
+//@     rc.nstreamsIn == old(rc.nstreamsIn) && rc.nstreamsOut == old(rc.nstreamsOut) && rc.nfd == old(rc.nfd)
+
+//@ func addInt64WithOverflow
+//@ prop C03
+//@ arith wrap
+//@ ensures ok <==> (MinInt64 <= a + b && a + b <= MaxInt64)
+//@ ensures ok ==> c == a + b
+
+//@ func mulInt64WithOverflow
+//@ prop C03
+//@ arith wrap
+//@ ensures ok <==> (MinInt64 <= a * b && a * b <= MaxInt64)
+//@ ensures ok ==> c == a * b
+
+//@ func (rc *resources) checkMemory
+//@ prop C03
+//@ arith wrap
+//@ requires rc.memory >= 0 && rc.limit.GetMemoryLimit() >= 0
+//@ ensures result == nil ==> rsvp >= 0 && rc.memory + rsvp <= MaxInt64
+//@ ensures result == nil && rc.limit.GetMemoryLimit() != MaxInt64 ==>
+//@         rc.memory + rsvp <= fdiv(rc.limit.GetMemoryLimit() * (1 + prio), 256)
+//@ ensures rsvp >= 0 && rc.limit.GetMemoryLimit() != MaxInt64 &&
+//@         rc.memory + rsvp <= fdiv(rc.limit.GetMemoryLimit() * (1 + prio), 256) ==> result == nil
+//@ ensures result != nil && rsvp >= 0 ==> wraps(result, network.ErrResourceLimitExceeded)
+//@ modifies nothing
+
+//@ func (rc *resources) reserveMemory
+//@ prop C03
+//@ arith wrap
+//@ requires rc.memory >= 0 && rc.limit.GetMemoryLimit() >= 0
+//@ ensures result == nil ==> size >= 0 && rc.memory == old(rc.memory) + size
+//@ ensures result == nil && rc.limit.GetMemoryLimit() != MaxInt64 ==>
+//@         rc.memory <= fdiv(rc.limit.GetMemoryLimit() * (1 + prio), 256)
+//@ ensures result != nil ==> rc.memory == old(rc.memory)
+//@ ensures result != nil && size >= 0 ==> wraps(result, network.ErrResourceLimitExceeded)
+//@ ensures rc.memory >= 0
+//@ modifies rc.memory
+
+//@ func (rc *resources) releaseMemory
+//@ prop C03
+//@ arith wrap
+//@ requires rc.memory >= 0 && size >= 0
+//@ ensures rc.memory == max(0, old(rc.memory) - size)
+//@ modifies rc.memory
+
+//@ func (rc *resources) addStreams
+//@ prop C03
+//@ requires nonneg(rc) && incount >= 0 && outcount >= 0
+//@ ensures result == nil ==> rc.nstreamsIn == old(rc.nstreamsIn) + incount && rc.nstreamsOut == old(rc.nstreamsOut) + outcount
+//@ ensures result == nil && incount > 0 ==> rc.nstreamsIn <= rc.limit.GetStreamLimit(network.DirInbound)
+//@ ensures result == nil && outcount > 0 ==> rc.nstreamsOut <= rc.limit.GetStreamLimit(network.DirOutbound)
+//@ ensures result == nil ==> rc.nstreamsIn + rc.nstreamsOut <= rc.limit.GetStreamTotalLimit()
+//@ ensures result != nil ==> rc.nstreamsIn == old(rc.nstreamsIn) && rc.nstreamsOut == old(rc.nstreamsOut) &&
+//@         wraps(result, network.ErrResourceLimitExceeded)
+//@ ensures (incount > 0 ==> old(rc.nstreamsIn) + incount <= rc.limit.GetStreamLimit(network.DirInbound)) &&
+//@         (outcount > 0 ==> old(rc.nstreamsOut) + outcount <= rc.limit.GetStreamLimit(network.DirOutbound)) &&
+//@         old(rc.nstreamsIn) + incount + old(rc.nstreamsOut) + outcount <= rc.limit.GetStreamTotalLimit() ==> result == nil
+//@ modifies rc.nstreamsIn, rc.nstreamsOut
+
+//@ func (rc *resources) removeStreams
+//@ prop C03
+//@ ensures rc.nstreamsIn == max(0, old(rc.nstreamsIn) - incount) && rc.nstreamsOut == max(0, old(rc.nstreamsOut) - outcount)
+//@ modifies rc.nstreamsIn, rc.nstreamsOut
+
+//@ func (rc *resources) addConns
+//@ prop C03
+//@ requires nonneg(rc) && incount >= 0 && outcount >= 0 && fdcount >= 0
+//@ ensures result == nil ==> rc.nconnsIn == old(rc.nconnsIn) + incount && rc.nconnsOut == old(rc.nconnsOut) + outcount &&
+//@         rc.nfd == old(rc.nfd) + fdcount
+//@ ensures result == nil && incount > 0 ==> rc.nconnsIn <= rc.limit.GetConnLimit(network.DirInbound)
+//@ ensures result == nil && outcount > 0 ==> rc.nconnsOut <= rc.limit.GetConnLimit(network.DirOutbound)
+//@ ensures result == nil ==> rc.nconnsIn + rc.nconnsOut <= rc.limit.GetConnTotalLimit()
+//@ ensures result == nil && fdcount > 0 ==> rc.nfd <= rc.limit.GetFDLimit()
+//@ ensures result != nil ==> rc.nconnsIn == old(rc.nconnsIn) && rc.nconnsOut == old(rc.nconnsOut) && rc.nfd == old(rc.nfd) &&
+//@         wraps(result, network.ErrResourceLimitExceeded)
+//@ modifies rc.nconnsIn, rc.nconnsOut, rc.nfd
+
+//@ func (rc *resources) removeConns
+//@ prop C03
+//@ ensures rc.nconnsIn == max(0, old(rc.nconnsIn) - incount) && rc.nconnsOut == max(0, old(rc.nconnsOut) - outcount) &&
+//@         rc.nfd == max(0, old(rc.nfd) - fdcount)
+//@ modifies rc.nconnsIn, rc.nconnsOut, rc.nfd
+
+//@ func (rc *resources) addStream
+//@ prop C03
+//@ requires nonneg(rc)
+//@ ensures result == nil ==> rc.nstreamsIn == old(rc.nstreamsIn) + ite(dir == network.DirInbound, 1, 0) &&
+//@         rc.nstreamsOut == old(rc.nstreamsOut) + ite(dir == network.DirInbound, 0, 1)
+//@ ensures result != nil ==> rc.nstreamsIn == old(rc.nstreamsIn) && rc.nstreamsOut == old(rc.nstreamsOut) &&
+//@         wraps(result, network.ErrResourceLimitExceeded)
+//@ modifies rc.nstreamsIn, rc.nstreamsOut
+
+//@ func (rc *resources) removeStream
+//@ prop C03
+//@ ensures rc.nstreamsIn == max(0, old(rc.nstreamsIn) - ite(dir == network.DirInbound, 1, 0)) &&
+//@         rc.nstreamsOut == max(0, old(rc.nstreamsOut) - ite(dir == network.DirInbound, 0, 1))
+//@ modifies rc.nstreamsIn, rc.nstreamsOut
+
+//@ func (rc *resources) addConn
+//@ prop C03
+//@ requires nonneg(rc)
+//@ ensures result == nil ==> rc.nconnsIn == old(rc.nconnsIn) + ite(dir == network.DirInbound, 1, 0) &&
+//@         rc.nconnsOut == old(rc.nconnsOut) + ite(dir == network.DirInbound, 0, 1) &&
+//@         rc.nfd == old(rc.nfd) + ite(usefd, 1, 0)
+//@ ensures result != nil ==> rc.nconnsIn == old(rc.nconnsIn) && rc.nconnsOut == old(rc.nconnsOut) && rc.nfd == old(rc.nfd) &&
+//@         wraps(result, network.ErrResourceLimitExceeded)
+//@ modifies rc.nconnsIn, rc.nconnsOut, rc.nfd
+
+//@ func (rc *resources) removeConn
+//@ prop C03
+//@ ensures rc.nconnsIn == max(0, old(rc.nconnsIn) - ite(dir == network.DirInbound, 1, 0)) &&
+//@         rc.nconnsOut == max(0, old(rc.nconnsOut) - ite(dir == network.DirInbound, 0, 1)) &&
+//@         rc.nfd == max(0, old(rc.nfd) - ite(usefd, 1, 0))
+//@ modifies rc.nconnsIn, rc.nconnsOut, rc.nfd
+
+//@ func (rc *resources) stat
+//@ prop C03
+//@ ensures result.Memory == rc.memory && result.NumStreamsInbound == rc.nstreamsIn && result.NumStreamsOutbound == rc.nstreamsOut &&
+//@         result.NumConnsInbound == rc.nconnsIn && result.NumConnsOutbound == rc.nconnsOut && result.NumFD == rc.nfd
+//@ modifies nothing
+
+// ---------------------------------------------------------------------------
+// C03 level 2: one scope (sequential mode: Lock/Unlock are atomic critical sections)
+
+//@ pred wfScope(s *resourceScope) = s != nil && nonneg(s.rc) && s.rc.limit.GetMemoryLimit() >= 0
+//@ pred rcUnchanged(s *resourceScope) = s.rc.memory == old(s.rc.memory) && s.rc.nconnsIn == old(s.rc.nconnsIn) &&
+//@     s.rc.nconnsOut == old(s.rc.nconnsOut) && s.rc.nstreamsIn == old(s.rc.nstreamsIn) &&
+//@     s.rc.nstreamsOut == old(s.rc.nstreamsOut) && s.rc.nfd == old(s.rc.nfd)
+//@ pred statNonneg(st network.ScopeStat) = st.Memory >= 0 && st.NumStreamsInbound >= 0 && st.NumStreamsOutbound >= 0 &&
+//@     st.NumConnsInbound >= 0 && st.NumConnsOutbound >= 0 && st.NumFD >= 0
+//@ pred rcPlus(s *resourceScope, st network.ScopeStat) = s.rc.memory == old(s.rc.memory) + st.Memory &&
+//@     s.rc.nstreamsIn == old(s.rc.nstreamsIn) + st.NumStreamsInbound && s.rc.nstreamsOut == old(s.rc.nstreamsOut) + st.NumStreamsOutbound &&
+//@     s.rc.nconnsIn == old(s.rc.nconnsIn) + st.NumConnsInbound && s.rc.nconnsOut == old(s.rc.nconnsOut) + st.NumConnsOutbound &&
+//@     s.rc.nfd == old(s.rc.nfd) + st.NumFD
+//@ pred rcMinus(s *resourceScope, st network.ScopeStat) = s.rc.memory == max(0, old(s.rc.memory) - st.Memory) &&
+//@     s.rc.nstreamsIn == max(0, old(s.rc.nstreamsIn) - st.NumStreamsInbound) && s.rc.nstreamsOut == max(0, old(s.rc.nstreamsOut) - st.NumStreamsOutbound) &&
+//@     s.rc.nconnsIn == max(0, old(s.rc.nconnsIn) - st.NumConnsInbound) && s.rc.nconnsOut == max(0, old(s.rc.nconnsOut) - st.NumConnsOutbound) &&
+//@     s.rc.nfd == max(0, old(s.rc.nfd) - st.NumFD)
+
+//@ func (s *resourceScope) ReserveMemoryForChild
+//@ prop C03
+//@ requires wfScope(s)
+//@ ensures result1 == nil ==> !s.done && size >= 0 && s.rc.memory == old(s.rc.memory) + size
+//@ ensures result1 != nil ==> s.rc.memory == old(s.rc.memory)
+//@ ensures s.done ==> result1 != nil
+//@ ensures result1 != nil && !s.done && size >= 0 ==> wraps(result1, network.ErrResourceLimitExceeded)
+//@ ensures wfScope(s)
+//@ modifies s.rc.memory
+
+//@ func (s *resourceScope) ReleaseMemoryForChild
+//@ prop C03
+//@ requires wfScope(s) && size >= 0
+//@ ensures !s.done ==> s.rc.memory == max(0, old(s.rc.memory) - size)
+//@ ensures s.done ==> s.rc.memory == old(s.rc.memory)
+//@ modifies s.rc.memory
+
+//@ func (s *resourceScope) AddStreamForChild
+//@ prop C03
+//@ requires wfScope(s)
+//@ ensures result1 == nil ==> !s.done && s.rc.nstreamsIn == old(s.rc.nstreamsIn) + ite(dir == network.DirInbound, 1, 0) &&
+//@         s.rc.nstreamsOut == old(s.rc.nstreamsOut) + ite(dir == network.DirInbound, 0, 1)
+//@ ensures result1 != nil ==> s.rc.nstreamsIn == old(s.rc.nstreamsIn) && s.rc.nstreamsOut == old(s.rc.nstreamsOut)
+//@ ensures s.done ==> result1 != nil
+//@ ensures result1 != nil && !s.done ==> wraps(result1, network.ErrResourceLimitExceeded)
+//@ modifies s.rc.nstreamsIn, s.rc.nstreamsOut
+
+//@ func (s *resourceScope) RemoveStreamForChild
+//@ prop C03
+//@ ensures !s.done ==> s.rc.nstreamsIn == max(0, old(s.rc.nstreamsIn) - ite(dir == network.DirInbound, 1, 0)) &&
+//@         s.rc.nstreamsOut == max(0, old(s.rc.nstreamsOut) - ite(dir == network.DirInbound, 0, 1))
+//@ ensures s.done ==> s.rc.nstreamsIn == old(s.rc.nstreamsIn) && s.rc.nstreamsOut == old(s.rc.nstreamsOut)
+//@ modifies s.rc.nstreamsIn, s.rc.nstreamsOut
+
+//@ func (s *resourceScope) AddConnForChild
+//@ prop C03
+//@ requires wfScope(s)
+//@ ensures result1 == nil ==> !s.done && s.rc.nconnsIn == old(s.rc.nconnsIn) + ite(dir == network.DirInbound, 1, 0) &&
+//@         s.rc.nconnsOut == old(s.rc.nconnsOut) + ite(dir == network.DirInbound, 0, 1) &&
+//@         s.rc.nfd == old(s.rc.nfd) + ite(usefd, 1, 0)
+//@ ensures result1 != nil ==> s.rc.nconnsIn == old(s.rc.nconnsIn) && s.rc.nconnsOut == old(s.rc.nconnsOut) && s.rc.nfd == old(s.rc.nfd)
+//@ ensures s.done ==> result1 != nil
+//@ ensures result1 != nil && !s.done ==> wraps(result1, network.ErrResourceLimitExceeded)
+//@ modifies s.rc.nconnsIn, s.rc.nconnsOut, s.rc.nfd
+
+//@ func (s *resourceScope) RemoveConnForChild
+//@ prop C03
+//@ ensures !s.done ==> s.rc.nconnsIn == max(0, old(s.rc.nconnsIn) - ite(dir == network.DirInbound, 1, 0)) &&
+//@         s.rc.nconnsOut == max(0, old(s.rc.nconnsOut) - ite(dir == network.DirInbound, 0, 1)) &&
+//@         s.rc.nfd == max(0, old(s.rc.nfd) - ite(usefd, 1, 0))
+//@ ensures s.done ==> s.rc.nconnsIn == old(s.rc.nconnsIn) && s.rc.nconnsOut == old(s.rc.nconnsOut) && s.rc.nfd == old(s.rc.nfd)
+//@ modifies s.rc.nconnsIn, s.rc.nconnsOut, s.rc.nfd
+
+//@ func (s *resourceScope) ReserveForChild
+//@ prop C03
+//@ requires wfScope(s) && statNonneg(st)
+//@ ensures result == nil ==> !s.done && rcPlus(s, st)
+//@ ensures result != nil ==> rcUnchanged(s)
+//@ ensures s.done ==> result != nil
+//@ ensures result != nil && !s.done ==> wraps(result, network.ErrResourceLimitExceeded)
+//@ ensures wfScope(s)
+//@ modifies s.rc
+
+//@ func (s *resourceScope) ReleaseForChild
+//@ prop C03
+//@ requires wfScope(s) && statNonneg(st)
+//@ ensures !s.done ==> rcMinus(s, st)
+//@ ensures s.done ==> rcUnchanged(s)
+//@ ensures wfScope(s)
+//@ modifies s.rc
+
+// ---- edges: all-or-nothing over the linearised parent set (A-DISTINCT is the structural precondition)
+
+//@ ghost depth int
+//@ pred allNonneg() = forall x *resources :: nonneg(x) && x.limit.GetMemoryLimit() >= 0
+//@ pred edgesOK(s *resourceScope) =
+//@     (forall i int :: 0 <= i && i < len(s.edges) ==> s.edges[i] != nil && s.edges[i] != s && ghost.depth(s.edges[i]) < ghost.depth(s)) &&
+//@     (forall i int, j int :: 0 <= i && i < j && j < len(s.edges) ==> s.edges[i] != s.edges[j])
+
+//@ func (s *resourceScope) reserveMemoryForEdges
+//@ prop C03
+//@ requires s.owner == nil && size >= 0 && allNonneg() && edgesOK(s)
+//@ loop 0 invariant 0 <= reserved && reserved <= len(s.edges) && idx0 == reserved && err == nil
+//@ loop 0 invariant forall j int :: 0 <= j && j < reserved ==> s.edges[j].rc.memory == old(s.edges[j].rc.memory) + size && !s.edges[j].done
+//@ loop 0 invariant forall r *resources :: r.memory == old(r.memory) || (exists j int :: 0 <= j && j < reserved && r == &s.edges[j].rc)
+//@ loop 0 invariant allNonneg()
+//@ loop 1 invariant 0 <= idx1 && idx1 <= reserved && reserved <= len(s.edges) && err != nil
+//@ loop 1 invariant forall j int :: idx1 <= j && j < reserved ==> s.edges[j].rc.memory == old(s.edges[j].rc.memory) + size && !s.edges[j].done
+//@ loop 1 invariant forall r *resources :: r.memory == old(r.memory) || (exists j int :: idx1 <= j && j < reserved && r == &s.edges[j].rc)
+//@ loop 1 invariant allNonneg()
+//@ ensures result == nil ==> forall j int :: 0 <= j && j < len(s.edges) ==> s.edges[j].rc.memory == old(s.edges[j].rc.memory) + size
+//@ ensures result == nil ==> forall r *resources :: r.memory == old(r.memory) || (exists j int :: 0 <= j && j < len(s.edges) && r == &s.edges[j].rc)
+//@ ensures result != nil ==> forall r *resources :: r.memory == old(r.memory)
+//@ ensures allNonneg()
+//@ modifies resources.memory
